@@ -6,7 +6,9 @@ pub mod cmapenc;
 pub mod gposenc;
 pub mod gsubenc;
 pub mod varenc;
+pub mod woff2enc;
 pub mod read;
+pub mod rt;
 pub mod sfnt;
 pub mod tables;
 
